@@ -190,6 +190,7 @@ class Interp:
             "print": PyFunc(lambda *a, **k: None, "print", True),
             "getattr": PyFunc(self._getattr, "getattr", True),
             "setattr": PyFunc(self._setattr, "setattr", True),
+            "callable": PyFunc(self._callable, "callable", True),
             "True": True, "False": False, "None": None, "NotImplemented": NotImplemented,
             "Exception": ClassRef("Exception"), "ValueError": ClassRef("ValueError"), "TypeError": ClassRef("TypeError"),
             "NotImplementedError": ClassRef("NotImplementedError"), "ZeroDivisionError": ClassRef("ZeroDivisionError"),
@@ -239,6 +240,7 @@ class Interp:
                                     "findall": PyFunc(lambda p, s, *a: re.findall(p, s), "re.findall"),
                                     "sub": PyFunc(lambda p, r, s, *a: re.sub(p, r, s), "re.sub")}),
             "functools.reduce": PyFunc(self._reduce, "reduce", True),
+            "functools.wraps": PyFunc(lambda f, *a, **k: PyFunc(lambda g: g, "wraps(f)", True), "wraps", True),
             "functools.partial": PyFunc(lambda f, *a, **k: Obj("partial", {"fmt": "<partial>"}, call=lambda *a2, **k2: self.call(f, list(a) + list(a2), {**k, **k2})), "partial", True),
             **{f"itertools.{k}": v for k, v in self._itertools().items()},
             "collections.namedtuple": PyFunc(lambda name, fields, **k: PyFunc(lambda *a, **kw: tuple(a) + tuple(kw[f] for f in fields[len(a):]), name, True), "namedtuple", True),
@@ -318,9 +320,31 @@ class Interp:
             "pairwise": PyFunc(lambda q: list(zip(seq(q), seq(q)[1:])), "pairwise", True),
         }
 
+    def decorated(self, node, module):
+        """A module-level function with decorators: the decorators are applied ONCE per interpreter (the decorated
+        object, with whatever state its decorator closes over, is one object for the life of the process)."""
+        key = (module, "@" + node.name)
+        if key in self.module_state:
+            return self.module_state[key]
+        f = Closure(node, {}, module)
+        for deco in reversed(node.decorator_list):
+            d = self.eval(deco, Env({}, {}, module, self))
+            if isinstance(d, Unk):
+                raise NoValue(f"decorator {un(deco)} of {module}.{node.name} is not understood")
+            f = self.call(d, [f], {})
+        self.module_state[key] = f
+        return f
+
     # ------------------------------------------------------------------ builtins
     def _len(self, v):
-        if isinstance(v, (Unk, T)):
+        if isinstance(v, T):
+            facts = getattr(self, "tvar_facts", {}).get("__len__", {})
+            if len(v.terms) == 1:
+                (w, c), = v.terms.items()
+                if c == 1 and len(w) == 1 and w[0][0] == "v" and w[0][1] in facts:
+                    return facts[w[0][1]]
+            return Unk("len")
+        if isinstance(v, Unk):
             return Unk("len")
         if isinstance(v, Obj):
             if "__len__" in v.methods:
@@ -344,6 +368,19 @@ class Interp:
         if isinstance(v, (Unk, Closure, PyFunc, Bound, ClassRef)):
             return Unk("type")
         return ClassRef(type(v).__name__)
+
+    def _callable(self, v):
+        if isinstance(v, (Closure, PyFunc, ClassRef, Bound)):
+            return True
+        if isinstance(v, Obj):
+            if v.call is not None or "__call__" in v.methods:
+                return True
+            if v.kind in self.instance_classes:
+                return isinstance(self._class_def(v.kind, "__call__"), ast.FunctionDef)
+            return False
+        if isinstance(v, (Unk, T)):
+            return Unk("callable")
+        return callable(v)
 
     def _setattr(self, o, n, v):
         if isinstance(o, Obj) and isinstance(n, str):
@@ -1453,6 +1490,8 @@ class Env:
             if repo.has(q):
                 node = repo.lookup(q)
                 if isinstance(node, ast.FunctionDef):
+                    if node.decorator_list:
+                        return interp.decorated(node, self.module)
                     return Closure(node, {}, self.module)
                 return ClassRef(name)
             found = None
@@ -1465,7 +1504,10 @@ class Env:
                             src = st.module.split(".", 1)[1]
                             if src in repo.modules and repo.has(f"{src}.{al.name}"):
                                 node = repo.lookup(f"{src}.{al.name}")
-                                found = Closure(node, {}, src) if isinstance(node, ast.FunctionDef) else ClassRef(al.name)
+                                if isinstance(node, ast.FunctionDef) and node.decorator_list:
+                                    found = interp.decorated(node, src)
+                                else:
+                                    found = Closure(node, {}, src) if isinstance(node, ast.FunctionDef) else ClassRef(al.name)
                             else:
                                 found = Unk(f"import {name}")
                         else:
